@@ -385,6 +385,12 @@ def _contact_position(v, v1, v2, search_direction):
         ])
         coords_sum = np.sum(barycentric_coordinates)
 
+        if abs(coords_sum) < EPSILON:
+            # Degenerate portal (e.g., flat Minkowski difference): fall back
+            # to the center of the portal's triangle.
+            barycentric_coordinates = np.array([0.0, 1.0, 1.0, 1.0])
+            coords_sum = 3.0
+
     barycentric_coordinates /= coords_sum
 
     v1 = barycentric_coordinates.dot(v1)
